@@ -5,7 +5,8 @@ LEVEL = "model_checking"
 
 def run(ctx, args):
     run_focus(ctx, "C03", [("MC_ProxyReq.cfg", 4, 1), ("MC_ProxyNames.cfg", 1, 1)],
+              extra_drivers=[("TestVfRouteWiring", {})],
               reach=("Reach_Backend", "Reach_HopInserted", "Reach_Drop", "Reach_OwnConsumed"),
               rule="decision table {no Route, own only, own+next, next only, near misses} x {To host: exact, wildcard, default, none} x "
                    "{Request-URI: literal, user@host, regex-only, urn, tel, listener addr:port, wrong port, foreign; and, in a second universe, several names on one host: second user@host name, unlisted user, bare host name following a user@host name} x keep on/off x "
-                   "listener port 5060/5070 x pool empty/non-empty x next hop learned/not, every cell rendered plainly and with seeded decorations")
+                   "listener port 5060/5070 x pool empty/non-empty x next hop learned/not, every cell rendered plainly and with seeded decorations; plus static routes loaded from YAML (overlapping wildcard destinations in five configuration orders, several dests per entry) through createPreConfigRoute + startProxy")
